@@ -1,3 +1,4 @@
+import TmcgProps.C13Arrays
 import TmcgProps.C13Aio2
 import TmcgProofs.Aio
 /-
